@@ -1,6 +1,7 @@
 #!/bin/bash
 # usage: try_patch.sh <patch.diff> <Cxx> [Cyy...]  -- apply to /repo, run checks, revert
 P=$1; shift
+if [ -n "$(git -C /repo status --porcelain)" ]; then echo "REFUSING: /repo has uncommitted changes"; exit 9; fi
 git -C /repo apply "$P" || { echo "patch does not apply"; exit 9; }
 cd /verif
 for c in "$@"; do ./check $c 2>&1 | grep -vE "^\[facts\]" ; done
